@@ -4,7 +4,10 @@ from harness import k_api, k_dtypes, k_qualitative, k_transform
 
 def obligations(tier):
     quick = tier == "quick"
-    return [
+    from harness import C17
+
+    edited = C17.obligations(tier, prefix="O5.5")  # "all fitted objects" includes manually edited ones: no raw value leaks after update_discretizer
+    return edited + [
         k_api.obligation(tier, {"C05"}, "O5.2 end to end: after complete fits an unseen finite value gets a fitted label; unexpected NaN -> AssertionError naming the feature",
                          ["BinaryCarver", "Discretizer"], ns=[3] if quick else [3, 4], max_pats=6 if quick else 14),
         k_dtypes.obligation(tier, "O5.4 numeric pandas dtypes at transform time (incl. nullable Int64/Float64 with pd.NA): fitted labels, or AssertionError naming the feature for unexpected missing values; output independent of the dtype"),
